@@ -305,7 +305,7 @@ def helper_siblings(ctx: Ctx, rule: str) -> None:
                         return comp_none
                 # truthiness tests of the stored / computed time (`if scheduled:`)
                 if isinstance(node, (ast.Name, ast.Attribute)):
-                    d = dotted(C.inline_locals(f, node)) or ""
+                    d = dotted(C.inline_locals(f, node)) or unparse(C.inline_locals(f, node) or node)
                     if d.endswith("next_execution_time") and not d.endswith("compute_next_execution_time") and next_none is not None:
                         return not next_none
                     if d.endswith("compute_next_execution_time"):
